@@ -19,6 +19,7 @@ def make_batch(rng):
     keys = rng.sample(["a", "b", "c", "n", "k"], 3)
     vals = [1, 2, 5, "x", "y", True]
     ndocs = rng.randint(2, 4)
+    volume = rng.random() < 0.3
     docs = []
     for i in range(ndocs):
         d = {k: rng.choice(vals) for k in keys}
@@ -26,6 +27,8 @@ def make_batch(rng):
         d["m"] = {"q": rng.choice(vals), "w": {"z": rng.choice(vals)}}
         if rng.random() < 0.3:
             del d[keys[0]]
+        if volume:
+            d["big"] = [{"g": rng.choice([0, 1, 2])} for _ in range(rng.randint(24, 40))]
         docs.append(d)
     nr = rng.randint(1, 3)
     rules = []
@@ -40,6 +43,11 @@ def make_batch(rng):
                  "rule r2 {\n    %s {\n        let inner = this\n        %%inner == %s\n    }\n    dep\n}" % (rng.choice([k1, "m.w.z", "l[*]"]), gen.glit(rng.choice(vals)))]
         if rng.random() < 0.4:
             lines.append("rule r3 {\n    m[ cap | this exists ] exists\n    %cap !empty\n}")
+        if volume:
+            # many parameterised-rule calls per pair (plain and negated, passing and failing): whatever the evaluator counts per call
+            # (nesting depth, recursion guards) must start afresh for every pair
+            lines.append("rule pv(e, want) {\n    %%e.g == %%want\n}\nrule r4 {\n    big[*] {\n        not pv(this, %s)\n    }\n}\nrule r5 {\n    some big[*] {\n        pv(this, %s)\n    }\n}"
+                         % (gen.glit(rng.choice(["none", 0, 1])), gen.glit(rng.choice([0, 1, 2]))))
         # reads a key that only the --input-parameters document provides (when the batch has one): every pair must see it
         lines.append("rule rp {\n    zp == %s or zp !exists\n    zp exists or %s exists\n}" % (gen.glit(rng.choice(vals)), k1))
         rules.append("\n".join(lines) + "\n")
@@ -134,6 +142,15 @@ def shard(ctx):
                 rs = ctx.w.run({"k": "cli", "argv": a + ["--structured", "-S", "none", "-o", "json"], "files": fl})
                 rp = ctx.w.run({"k": "cli", "argv": a + ["-S", "none", "-o", "json"], "files": fl})
                 if rs.get("r") != "ok" or rp.get("r") != "ok":
+                    # the pair alone does not evaluate HERE - does it in a process that has evaluated nothing before?
+                    ctx.w.close()
+                    rs2 = ctx.w.run({"k": "cli", "argv": a + ["--structured", "-S", "none", "-o", "json"], "files": fl})
+                    ctx.w.close()
+                    rp2 = ctx.w.run({"k": "cli", "argv": a + ["-S", "none", "-o", "json"], "files": fl})
+                    if rs2.get("r") == "ok" and rp2.get("r") == "ok" and not core.crash_signature(rs) and not core.crash_signature(rp):
+                        ctx.violation("singleton:depends-on-earlier-evaluations", "a (rules, data) pair validated alone fails after other evaluations in the same process (%s) "
+                                      "but evaluates in a fresh process" % (rs.get("emsg") or rp.get("emsg") or rs.get("err") or rp.get("err") or "")[:200],
+                                      {"rules": rules, "data": dtexts, "cfg": "fresh"})
                     crashed = True
                     break
                 try:
